@@ -266,8 +266,39 @@ def probe_masks(D, N):
     return {"ok": not bad, "bad": bad}
 
 
+def probe_grid(D, N, L):
+    """the documented grid: left-inclusive / right-exclusive, spacing L/N, starting at 0 — or at -L/2 when centred
+    around zero —, one more (redundant) point with `full`, the same along every axis and for both indexings"""
+    import exponax as ex
+    bad = []
+    for zc in (False, True):
+        for full in (False, True):
+            for indexing in ("ij", "xy"):
+                g = np.asarray(ex.make_grid(D, L, N, full=full, zero_centered=zc, indexing=indexing))
+                n = N + 1 if full else N
+                if g.shape != (D,) + (n,) * D:
+                    bad.append(f"shape {g.shape} (zero_centered={zc}, full={full}, {indexing})")
+                    continue
+                want1 = (-L / 2 if zc else 0.0) + np.arange(n) * (L / N)
+                for d in range(D):
+                    # coordinate d varies along array axis d for "ij"; for "xy" the first two array axes are swapped
+                    ax = d if indexing == "ij" or D == 1 or d > 1 else 1 - d
+                    line = np.moveaxis(g[d], ax, 0).reshape(n, -1)
+                    if not np.allclose(line, want1[:, None], rtol=0, atol=4e-15 * max(1.0, L)):
+                        bad.append(f"coordinate {d} (zero_centered={zc}, full={full}, {indexing}): starts at {float(line[0, 0])!r} "
+                                   f"(documented {float(want1[0])!r}), max deviation {float(np.max(np.abs(line - want1[:, None]))):.3e}")
+    return {"ok": not bad, "bad": bad[:6]}
+
+
 def oracle(ctx, deep):
     fails = []
+    for D, N in ([(1, 8), (1, 9), (2, 5), (2, 6), (3, 3), (3, 4)] if not deep else [(1, n) for n in range(1, 14)] + [(2, n) for n in range(2, 8)] + [(3, 3), (3, 4), (3, 5)]):
+        for L in (1.0, 2 * np.pi, 0.37):
+            r = probe_grid(D, N, L)
+            ctx.count(("oracle_grid", D, N, L))
+            if not r["ok"]:
+                fails.append({"key": f"C04:grid:D{D}:parity{N % 2}", "what": f"make_grid(D={D}, L={L}, N={N}) is not the documented grid: " + "; ".join(r["bad"])[:400],
+                              "probe": "grid", "args": {"D": D, "N": N, "L": L}, "observed": r})
     for D, N in ([(1, 49), (1, 98), (2, 49), (1, 12), (2, 7)] if not deep else [(1, n) for n in (12, 13, 49, 98, 103, 107, 161, 196)] + [(2, 49), (2, 98), (3, 7)]):
         r = probe_masks(D, N)
         ctx.count(("oracle_masks", D, N))
@@ -317,4 +348,4 @@ def oracle(ctx, deep):
 
 
 def replay(probe, args):
-    return {"single_mode": probe_single_mode, "coef_extraction": probe_coef_extraction, "roundtrip": probe_roundtrip, "xy": probe_xy, "masks": probe_masks}[probe](**args)
+    return {"single_mode": probe_single_mode, "coef_extraction": probe_coef_extraction, "roundtrip": probe_roundtrip, "xy": probe_xy, "masks": probe_masks, "grid": probe_grid}[probe](**args)
